@@ -827,6 +827,8 @@ impl<PL: ProgressLog> BvCompConf<PL> {
                         "Finished Compression thread {thread_id} and wrote {} bits for the graph and {} bits for the offsets",
                         stats.written_bits, stats.offsets_written_bits,
                     );
+                    #[cfg(feature = "verif_hooks")]
+                    crate::verif_hooks::before_job_send(thread_id);
                     tx.send(Job {
                         job_id: thread_id,
                         first_node,
